@@ -257,6 +257,12 @@ def run(pid, tier, seed):
         for mi in range(2 if tier == "quick" else 8):
             n = 3 if mi % 2 == 0 else 4
             pick = rng.sample([m_ for m_ in mixnames if m_ in nots], n)
+            # (always one source whose timestamp stands far into the line: its reader passes over the notations tried on line
+            #  starts while the others are still working theirs out)
+            if mi == 0:
+                pick = ["rfc3339", "apache_err", "mid_line"]
+            elif "mid_line" not in pick:
+                pick[rng.randrange(n)] = "mid_line"
             files, argv, sources, meta = {}, [], [], []
             for w, nm_ in enumerate(pick):
                 _, zk, maxfd, render = nots[nm_]
@@ -285,7 +291,7 @@ def run(pid, tier, seed):
             ji, (si, label, env, plan) = job
             files, argv, sources, meta, expected, ranks, dts = sets[si]
             env = dict(env)
-            env.pop("_notrace", None)
+            notrace = env.pop("_notrace", False)
             pre = env.pop("_pre", [])
             colour = env.pop("_colour", False)
             perm = env.pop("_perm", None)
@@ -298,7 +304,9 @@ def run(pid, tier, seed):
                 argv2, src2, exp2, dts2 = argv, sources, expected, dts
             case = Case(files, ["--color", "always" if colour else "never"] + pre + argv2, exp2, env=env, plan=plan,
                         note={"set": si, "schedule": label, "meta": meta, "perm": perm, "colour": colour}, timeout=30)
-            r = case.run(os.path.join(sc, "run", "j%d" % ji), trace=True)
+            # (the event sink serialises the threads a little: the repeated free runs go without it)
+            r = case.run(os.path.join(sc, "run", "j%d" % ji), trace=not notrace)
+            case.note["untraced"] = notrace
             return case, label, r, src2, dts2, ranks
 
         t0 = time.time()
@@ -344,6 +352,8 @@ def run(pid, tier, seed):
             if r.rc != 0 and all(len(s) > 0 for s in src2):
                 rep.violation("exit-status:%s" % label, "exit status %d for well-formed sources" % r.rc,
                               case.replay_record(r))
+            if case.note.get("untraced"):
+                continue
             runmodel.check_hooks_present(r.trace)
             if label == "tlc-plan":
                 plan_total += 1
